@@ -474,6 +474,8 @@ fn run_mask(f: &[&str]) -> Result<String, String> {
         // wire payload is `payload`; the message returned is payload XOR key
         // rd<k>[c<cut>]: optionally the transport delivers the masked frame in two reads, cut `cut` bytes into it
         // rd<k>w<cut>: the same with a WouldBlock between the two reads (the call returns and is repeated)
+        let partial = k.ends_with('p');
+        let k = k.trim_end_matches('p');
         let (k, cut, blocked): (usize, Option<usize>, bool) = match (k.split_once('c'), k.split_once('w')) {
             (Some((a, b)), _) => (a.parse().unwrap(), Some(b.parse().unwrap()), false),
             (_, Some((a, b))) => (a.parse().unwrap(), Some(b.parse().unwrap()), true),
@@ -495,9 +497,13 @@ fn run_mask(f: &[&str]) -> Result<String, String> {
             _ => vec![format!("d:{}", hex(&wire))],
         };
         let chunk_refs: Vec<&str> = chunks.iter().map(|s| s.as_str()).collect();
-        let script = Script::parse(&chunk_refs, &[], &[])?;
         let cfg = WebSocketConfig::default().accept_unmasked_frames(true);
-        let mut ws = WebSocket::from_raw_socket(script, Role::Server, Some(cfg));
+        // rd<k>p: the whole wire is handed over at construction (from_partially_read) instead of coming from the transport
+        let mut ws = if partial {
+            WebSocket::from_partially_read(Script::parse(&[], &[], &[])?, wire.clone(), Role::Server, Some(cfg))
+        } else {
+            WebSocket::from_raw_socket(Script::parse(&chunk_refs, &[], &[])?, Role::Server, Some(cfg))
+        };
         if k >= 2 {
             ws.read().map_err(|e| error_s(&e))?;
         }
